@@ -253,10 +253,12 @@ class Ctx(object):
                 elif b not in self.failures and b not in first:
                     first[b] = (jsonable(case), d)
 
+        t_start = time.time()
         try:
             make(body1, [Phase.generate], n)()
         except hypothesis.errors.FailedHealthCheck as exc:
             raise HarnessError("health check in %s: %s" % (name, exc))
+        t_gen = time.time() - t_start
 
         class Found(Exception):
             pass
@@ -282,6 +284,10 @@ class Ctx(object):
                 if "case" in last:
                     entry.update(case=last["case"], detail=last["detail"], shrunk=True)
             self.failures[b] = entry
+        if os.environ.get("VERIF_DEBUG"):
+            self.extra.setdefault("timing", []).append(
+                "shard%d %s/%s gen=%.1fs shrink=%.1fs buckets=%d" % (
+                    self.shard, name, salt, t_gen, time.time() - t_start - t_gen, len(first)))
 
     def result(self):
         return {
@@ -345,10 +351,11 @@ def _spawn(job, idx, scratch):
     envd["PYTHONHASHSEED"] = "0"
     envd["TMPDIR"] = wdir
     log = open(os.path.join(wdir, "log.txt"), "w")
+    t_spawn = time.time()
     proc = subprocess.Popen([sys.executable, "-m", "vp.runner", "--worker", spec_path],
                             cwd=env.VERIF_ROOT, env=envd, stdout=log, stderr=subprocess.STDOUT,
                             start_new_session=True)
-    return {"proc": proc, "job": job, "dir": wdir, "log": log}
+    return {"proc": proc, "job": job, "dir": wdir, "log": log, "t0": t_spawn}
 
 
 def run_jobs(jobs, scratch, nworkers):
@@ -366,6 +373,8 @@ def run_jobs(jobs, scratch, nworkers):
                 continue
             running.remove(w)
             w["log"].close()
+            if os.environ.get("VERIF_DEBUG"):
+                print("debug: job %s shard=%s took %.1fs rc=%s" % (w["job"]["mode"], w["job"].get("shard"), time.time() - w["t0"], rc))
             res = None
             if os.path.exists(w["job"]["out"]):
                 try:
